@@ -10,9 +10,9 @@ from pathlib import Path
 import common as C
 
 PROPERTIES = ["C04", "C05"]
-PROPS_BY = {"C04": ["Nstd.Life.Props"], "C05": ["Nstd.Life.PropsStable", "Nstd.Life.PropsStableMech"]}
+PROPS_BY = {"C04": ["Nstd.Life.Props", "Nstd.Life.PropsArrTr"], "C05": ["Nstd.Life.PropsStable", "Nstd.Life.PropsStableMech"]}
 DRIVER = "drv_life"
-LEAN_TARGETS = ["Nstd.Life.Props", "Nstd.Life.PropsStable", "Nstd.Life.PropsStableMech", DRIVER]
+LEAN_TARGETS = ["Nstd.Life.Props", "Nstd.Life.PropsArrTr", "Nstd.Life.PropsStable", "Nstd.Life.PropsStableMech", DRIVER]
 
 _COMMON_NOTE = ("Trusted: Lean kernel + the three standard axioms; the hand translation of the eight container headers into the slot-level "
                 "model Nstd/Life/Model.lean (validated on every run by the correspondence, not proved: identical op lines on the real headers and on "
@@ -160,15 +160,38 @@ def translate(repo=None):
     return True, "items per block: " + " ".join(msgs)
 
 
+GEN_ARRAY_OUT = C.LEAN / "Nstd" / "Generated" / "LifeArray.lean"
+
+
+def translate_array(repo=None):
+    """(ok, message).  tools/gen_life.py: the member functions of Array.hpp, statement by statement, as Lean functions over the
+    pointer machine Nstd/Life/ArrPtr.lean -> lean/Nstd/Generated/LifeArray.lean (Nstd/Life/PropsArrTr.lean proves them equal to
+    the model operations).  Refuses (broken tie) anything outside the understood C++ subset."""
+    import importlib
+    import sys
+    sys.path.insert(0, str(Path(__file__).resolve().parents[1]))
+    gl = importlib.import_module("gen_life")
+    try:
+        return True, gl.generate(repo or C.REPO, GEN_ARRAY_OUT)
+    except gl.Refuse as e:
+        return False, f"gen_life: {e}"
+    except OSError as e:
+        return False, f"gen_life: {e}"
+
+
 def gen(ctx):
     ok, msg = translate()
+    ok2, msg2 = translate_array()
     if ctx is not None:
-        ctx.cov.setdefault("translated", msg)
-    return ok, msg
+        ctx.cov.setdefault("translated", msg + "; " + msg2)
+    return ok and ok2, "; ".join(m for o, m in ((ok, msg), (ok2, msg2)) if not o) or (msg + "; " + msg2)
 
 
 def setup():
     ok, msg = translate()
+    if not ok:
+        print("life translate:", msg)
+    ok, msg = translate_array()
     if not ok:
         print("life translate:", msg)
 
@@ -1121,6 +1144,7 @@ def replay(ctx, path):
         return
     harness = C.build_harness(ctx, "life_" + ctx.prop, sources(), extra_flags=["-Wno-invalid-offsetof"])
     translate()
+    translate_array()
     C.lake_build([DRIVER])
     ref = make_reference(ctx.prop == "C05")
     args = [ctx.prop]
